@@ -126,7 +126,7 @@ def sub_history(inp):
     from the object that was actually passed:
       'same'   canonical_form(p) again: an equal list
       'twin'   the same text parsed again with other annotations (an equal property, eq/hash ignore metadata)
-      'retime' p.but(pattern=p.pattern.but(max_time=T))
+      'retime' p.but(pattern=p.pattern.but(max_time=T)), or but(max_time=T, min_time=t) with 0 < t <= T
       'reevent' p.but(pattern=p.pattern.but(behaviour=<the behaviour of a neutral property>)) when that passes the sanity check
       'global' p.but(scope=globally) when that passes the sanity check
       'renest' the same alternatives nested differently inside their disjunctions (left-leaning, balanced), built through the API
@@ -167,7 +167,11 @@ def sub_history(inp):
                 raise Violation('history', 'twin:rejected', inp, f'{t2!r} is rejected although {text!r} is accepted')
             results.append(run_on(p2, 'twin'))
         elif kind == 'retime':
-            st, q = core.guarded(lambda: p.but(pattern=p.pattern.but(max_time=float(step[1]))))
+            # with a third entry: also a lower time bound (the concrete syntax has none, the pattern object does)
+            kw = {'max_time': float(step[1])}
+            if len(step) > 2:
+                kw['min_time'] = float(step[2])
+            st, q = core.guarded(lambda: p.but(pattern=p.pattern.but(**kw)))
             if st == 'ok':
                 results.append(run_on(q, 'retime'))
         elif kind == 'reevent':
@@ -272,7 +276,8 @@ def build_history(ch):
         if k == 'twin':
             steps.append((k, ch.pick(['t1', 't2', 't3'])))
         elif k == 'retime':
-            steps.append((k, ch.pick([0.5, 5, 30, 1000])))
+            T = ch.pick([0.5, 5, 30, 1000])
+            steps.append((k, T) if ch.bool() else (k, T, ch.pick([T / 4, T / 2, T, 0.25])))
         elif k == 'member':
             steps.append((k, ch.int(0, 7), ch.int(0, 15)))
         elif k == 'renest':
